@@ -114,6 +114,10 @@ func escape(s string) string {
 }
 
 func isNumeric(s string) bool {
+	// JSON numbers have no leading zeros (007 is not a number, 0 and 0.7 are)
+	if len(s) > 1 && s[0] == '0' && s[1] != '.' {
+		return false
+	}
 	i := 0
 	for ; i < len(s); i++ {
 		r := s[i]
